@@ -68,6 +68,10 @@ type VC struct {
 	witness map[string]string // human name -> term (entry-state values to report in models)
 	declared map[string]bool
 	lockTerms []string
+	refAxDone map[string]bool
+	frameHidePkg string
+	svContent map[string]svInfo
+	autoLoops map[loopKey]*LoopContract
 	frameFr *Frame
 	framePos token.Pos
 	frameWhole map[string]bool
@@ -78,17 +82,24 @@ type VC struct {
 	eventNames map[string]bool
 	eventArgTypes map[string]types.Type
 	inSpec int
+	inQuant int
 	topFrame *Frame
 	decls []string
 }
 
 func newVC(eng *Engine, fn *ssa.Function, fc *FuncContract) *VC {
+	vc := newVC0(eng, fn, fc)
+	vc.strLit("") // the empty string always has id -1 (see constZero)
+	return vc
+}
+
+func newVC0(eng *Engine, fn *ssa.Function, fc *FuncContract) *VC {
 	return &VC{
 		eng: eng, root: fn, fc: fc,
 		svSort: map[string]string{}, svInit: map[string]string{},
 		strlit: map[string]string{}, assum: map[string]bool{},
 		ordinals: map[string]int{}, modCache: map[*ssa.Function]map[string]bool{},
-		witness: map[string]string{},
+		witness: map[string]string{}, autoLoops: map[loopKey]*LoopContract{},
 	}
 }
 
@@ -102,6 +113,9 @@ func isAtom(t string) bool {
 func (vc *VC) def(sortName, term, hint string) string {
 	if isAtom(term) {
 		return term
+	}
+	if vc.inQuant > 0 {
+		return term // may mention a quantified variable: must stay inline
 	}
 	if vc.defCache == nil {
 		vc.defCache = map[string]string{}
@@ -127,6 +141,9 @@ func (vc *VC) fresh(sortName, hint string) string {
 func (vc *VC) fact(pc, term string) {
 	if term == "true" {
 		return
+	}
+	if vc.inQuant > 0 {
+		return // facts about terms under a quantifier cannot be asserted at top level
 	}
 	if vc.factCache == nil {
 		vc.factCache = map[string]bool{}
@@ -173,6 +190,89 @@ func (vc *VC) svDeclare(name, sortName string) {
 	vc.svSort[name] = sortName
 	init := vc.fresh(sortName, "init_"+name)
 	vc.svInit[name] = init
+}
+
+// svDeclareT declares a heap state variable whose contents have Go type t (levels: 1 = Array Int T,
+// 2 = Array Int (Array K T)) and assumes the allocation-closure axiom for its initial version.
+func (vc *VC) svDeclareT(name, sortName string, t types.Type, levels int, keySort string) {
+	if _, ok := vc.svSort[name]; ok {
+		return
+	}
+	vc.svDeclare(name, sortName)
+	if vc.svContent == nil {
+		vc.svContent = map[string]svInfo{}
+	}
+	vc.svContent[name] = svInfo{t, levels, keySort}
+	if _, ok := vc.svSort["G_alloc"]; ok {
+		vc.refAxiom("true", name, vc.svInit[name], fmt.Sprintf("(* %d %s)", refK, vc.svInit["G_alloc"]))
+	}
+}
+
+type svInfo struct {
+	typ    types.Type
+	levels int
+	keySort string
+}
+
+// refAxiom: every reference stored in (this version of) a heap array is below the allocation bound.
+// Assumed for unconstrained versions (initial state, havoc); stores of well-typed values preserve it.
+func (vc *VC) refAxiom(pc, sv, arr, bound string) {
+	info, ok := vc.svContent[sv]
+	if !ok || isScalarStruct(info.typ) {
+		return
+	}
+	var sel string
+	var binders string
+	if info.levels == 2 {
+		sel = fmt.Sprintf("(select (select %s a) i)", arr)
+		binders = fmt.Sprintf("((a Int) (i %s))", info.keySort)
+	} else {
+		sel = fmt.Sprintf("(select %s a)", arr)
+		binders = "((a Int))"
+	}
+	var body string
+	switch u := info.typ.Underlying().(type) {
+	case *types.Pointer, *types.Map, *types.Chan, *types.Signature:
+		_ = u
+		body = fmt.Sprintf("(and (>= %s 0) (< %s %s))", sel, sel, bound)
+	case *types.Interface:
+		body = fmt.Sprintf("(and (>= (if_type %s) 0) (>= (if_val %s) 0) (< (if_val %s) %s) (=> (= (if_type %s) 0) (= (if_val %s) 0)) (=> (> (if_type %s) 0) (> (if_val %s) 0)))", sel, sel, sel, bound, sel, sel, sel, sel)
+	case *types.Slice:
+		body = fmt.Sprintf("(and (>= (s_arr %s) 0) (< (s_arr %s) %s) (>= (s_len %s) 0) (<= (s_len %s) (s_cap %s)) (<= (s_cap %s) 9223372036854775807) (>= (s_off %s) 0))", sel, sel, bound, sel, sel, sel, sel, sel)
+	default:
+		return
+	}
+	// only allocated objects are constrained: the contents of unallocated memory are arbitrary
+	body = fmt.Sprintf("(=> (and (<= 0 a) (< a %s)) %s)", bound, body)
+	key := pc + "|" + arr + "|" + bound
+	if vc.refAxDone == nil {
+		vc.refAxDone = map[string]bool{}
+	}
+	if vc.refAxDone[key] {
+		return
+	}
+	vc.refAxDone[key] = true
+	if pc == "true" || pc == "" {
+		vc.emit(fmt.Sprintf("(assert (forall %s (! %s :pattern (%s))))", binders, body, sel))
+	} else {
+		vc.emit(fmt.Sprintf("(assert (=> %s (forall %s (! %s :pattern (%s)))))", pc, binders, body, sel))
+	}
+}
+
+// refAxiomsAfterCall: objects allocated by a callee are well-formed too.
+func (vc *VC) refAxiomsAfterCall(st *State) {
+	var keys []string
+	for k := range vc.svContent {
+		keys = append(keys, k)
+	}
+	sort.Strings(keys)
+	b := vc.def("Int", vc.allocBound(st), "bound")
+	for _, k := range keys {
+		if strings.HasPrefix(k, "V_") {
+			continue
+		}
+		vc.refAxiom(st.pc, k, vc.get(st, k), b)
+	}
 }
 
 func (vc *VC) get(st *State, name string) string {
